@@ -42,6 +42,34 @@ def singleGrowthMulti (nElem nBounds : Nat) (dG precDens : α)
 
 end
 
+section
+variable {α : Type} [Mul α] [Zero α] [LT α] [DecidableLT α] [LE α] [DecidableLE α]
+
+/-- the growth-rate field across grid changes: `_updateParticleSizeDistribution` replaces
+`self.growth[p]` by zeros of the NEW number of class boundaries before it recomputes the growth
+rate, and every growth calculation (which may fall back to the stored field) follows. -/
+structure GState (α : Type) where
+  nBounds : Nat
+  growth : List α
+
+inductive GOp (α : Type) where
+  | grid (nBoundsNew : Nat)
+  | growth (dG precDens : α) (res : Option (List α × List α × List α)) (kin prevEqA prevEqB : List α)
+
+def gstep (nElem : Nat) (s : GState α) : GOp α → Except Err (GState α)
+  | .grid n => .ok { nBounds := n, growth := List.replicate n 0 }
+  | .growth dG dens res kin a b =>
+    match singleGrowthMulti nElem s.nBounds dG dens res kin (some s.growth) a b with
+    | .ok o => .ok { s with growth := o.growth }
+    | .error e => .error e
+
+def grun (nElem : Nat) : GState α → List (GOp α) → Except Err (GState α)
+  | s, [] => .ok s
+  | s, op :: rest => match gstep nElem s op with
+    | .ok s' => grun nElem s' rest
+    | .error e => .error e
+end
+
 /-- the recorded histories as (name, length) pairs; `append` is `appendToArrays` with a one-row slice -/
 def appendAll (attrs : List String) (hist : List (String × Nat)) : List (String × Nat) :=
   hist.map (fun (nm, len) => if nm ∈ attrs then (nm, len + 1) else (nm, len))
